@@ -11,6 +11,7 @@ verus! {
 //@include prelude/pathspec.rs
 //@include prelude/shims.rs
 //@include prelude/procfs_env.rs
+//@include prelude/mountflags.rs
 //@broadcast-here
 pub type RawMode = u32;
 pub mod syscalls {
@@ -19,6 +20,24 @@ pub mod syscalls {
 //@use syscalls.openat_follow
 //@use syscalls.readlinkat
 //@use syscalls.fstatfs a5
+//@use syscalls.fsopen
+//@use syscalls.fsconfig_set_string
+//@use syscalls.fsconfig_create
+//@use syscalls.fsmount
+//@use syscalls.open_tree
+    /// R7: `syscalls::AT_FDCWD` (rustix::fs::CWD)
+    #[verifier::external_body]
+    pub fn at_fdcwd() -> (r: BorrowedFd<'static>) ensures raw_of(r.id@) == libc::AT_FDCWD as int { unimplemented!() }
+    /// R18: the one bootstrap use of `syscalls::openat(AT_FDCWD, "/proc", ..)` (new_unsafe_open): an absolute
+    /// path relative to nothing -- legal only for the literal "/proc", which try_from_fd then verifies
+    #[verifier::external_body]
+    pub fn openat_bootstrap_proc(dirfd: BorrowedFd<'_>, path: &str, flags: OpenFlags, mode: u32) -> (r: Result<OwnedFd, Error>)
+        requires
+            raw_of(dirfd.id@) == libc::AT_FDCWD as int,
+            path@ == "/proc"@,                                                   // [C05.bootstrap.only_the_literal_proc_path_is_opened_absolutely]
+            has(flags.bits, libc::O_PATH | libc::O_DIRECTORY),                  // [C05.bootstrap.opath_directory]
+        ensures r matches Ok(fd) ==> cloexec(fd.id()),
+    { unimplemented!() }
 //@use-missing syscalls.openat syscalls.openat_follow syscalls.readlinkat syscalls.mkdirat syscalls.mknodat syscalls.unlinkat syscalls.linkat syscalls.symlinkat syscalls.renameat syscalls.renameat2 syscalls.openat2
 }
 use syscalls::Error as SyscallError;
@@ -80,13 +99,17 @@ impl ProcfsHandle {
     pub closed spec fn mnt_id_spec(&self) -> Option<u64> { self.mnt_id }
     pub closed spec fn is_subset_spec(&self) -> bool { self.is_subset }
     pub closed spec fn inner_id(&self) -> int { self.inner.id() }
-//@use procfs.ProcfsHandle.new_unmasked
 //@prove procfs.ProcfsHandle.verify_same_procfs_mnt
 //@prove procfs.ProcfsHandle.open_base
 //@prove procfs.ProcfsHandle.open
 //@prove procfs.ProcfsHandle.readlink
 //@prove procfs.ProcfsHandle.open_follow
 //@prove procfs.ProcfsHandle.try_from_fd
+//@prove procfs.ProcfsHandle.new_fsopen
+//@prove procfs.ProcfsHandle.new_open_tree
+//@prove procfs.ProcfsHandle.new_unsafe_open
+//@prove procfs.ProcfsHandle.new
+//@prove procfs.ProcfsHandle.new_unmasked
 }
 } // verus!
 fn main() {}
